@@ -64,6 +64,7 @@ def run(chk):
         tasks.append({'n': 2, 'k': k, 'c': 0, 'entry': 'formula_dirty', 'phis': [phi]}); tasks.append({'n': 2, 'k': k, 'c': 0, 'entry': 'ext_dirty', 'phis': [phi]})
     ET.run_tasks(chk, 'C10', tasks, signature='substitution')
     e_uni(chk, thorough)
+    if thorough: beyond_bound(chk)
 
 def e_uni(chk, thorough):
     rng = chk.rng
@@ -120,3 +121,23 @@ def e_uni(chk, thorough):
                 chk.native_replays += 1; chk.obligation(name, 'E-UNI', 'violated')
                 chk.violation(name, 'plain-vs-extended', {'instance': inst.name, 'aeon': inst.aeon, 'formula': S.show(phi), 'bdds': bs}, 'plain and extended entry points disagree on ' + S.show(phi))
             UC.check_equiv(chk, 'C10', sess, phi, bs[1], name + ' [== semantics]', 'substitution') if bs[1] else None
+
+
+def beyond_bound(chk):
+    """native only (no solver, outside the claim): substitution on the bundled 13-variable model, BDD strings compared"""
+    import os
+    from .. import front
+    path = os.path.join(front.REPO, 'test', 'model-010-13var-2in.aeon')
+    if not os.path.exists(path): return
+    aeon = open(path).read()
+    cases = [('EF (v_Mesp1 & (AG ~v_Isl1))', 'AG ~v_Isl1', 'EF (v_Mesp1 & %p%)'), ('!{x}: AG EF {x} & (EF (!{y}: AX {y}))', '!{y}: AX {y}', '!{x}: AG EF {x} & (EF %p%)'),
+             ('(3{x}: @{x}: AX {x}) | ~(EF (!{y}: AG EF {y}))', '!{y}: AG EF {y}', '(3{x}: @{x}: AX {x}) | ~(EF %p%)')]
+    for full, psi, sub in cases:
+        job = {'op': 'mc', 'aeon': aeon, 'k': 2, 'context': {'p': {'t': 'mc', 'f': psi}}, 'context_order': ['p'], 'runs': [{'entry': 'ext_dirty', 'formulas': [full]}, {'entry': 'ext_dirty', 'formulas': [sub]}]}
+        ans = front.native([job], timeout=900)[0]
+        name = f'C10/native (beyond the bound, 13-variable bundled model): {full}  ==  {sub} with %p% := raw result of {psi}'
+        if 'fatal' in ans or 'fatal_panic' in ans: chk.obligation(name, 'native (beyond bound)', 'inconclusive'); continue
+        a, b = ans['runs'][0].get('ok'), ans['runs'][1].get('ok')
+        if a is not None and a == b: chk.obligation(name, 'native (beyond bound)', 'holds', 0.0, False, {'claim': 'identical BDDs', 'bdd_nodes': a.count('|') - 1})
+        else:
+            chk.obligation(name, 'native (beyond bound)', 'violated'); chk.violation(name, 'substitution-13var', {'model': 'test/model-010-13var-2in.aeon', 'formula': full, 'substituted': sub, 'psi': psi}, 'substituted and original formula give different BDDs on the bundled model')
